@@ -612,47 +612,94 @@ class Program:
                     w = True
             writer.append(w)
 
+        NEG = {"eq": "ne", "ne": "eq", "slt": "sge", "sge": "slt", "sgt": "sle", "sle": "sgt",
+               "ult": "uge", "uge": "ult", "ugt": "ule", "ule": "ugt"}
+
         def lit(a, p):
-            """(term, const, 'eq'|'ne') for equality tests against a constant/null"""
-            if a[0] == "cmp" and a[1] in ("eq", "ne") and a[3][0] in ("const", "null"):
-                e = (a[1] == "eq") == p
-                return (a[2], a[3], "eq" if e else "ne")
+            """(term, const, relation) for comparisons against a constant / null"""
+            if a[0] == "cmp" and a[1] in NEG and a[3][0] in ("const", "null"):
+                c = a[3][1] if a[3][0] == "const" else 0
+                return (a[2], c, a[1] if p else NEG[a[1]])
             if a[0] == "truth":
-                return (a[1], ("const", 0), "ne" if p else "eq")
+                return (a[1], 0, "ne" if p else "eq")
             return None
+
+        def interval(rel, c):
+            inf = float("inf")
+            return {"eq": (c, c), "slt": (-inf, c - 1), "sle": (-inf, c), "sgt": (c + 1, inf), "sge": (c, inf),
+                    "ult": (0, c - 1), "ule": (0, c), "ugt": (c + 1, inf), "uge": (c, inf)}.get(rel)
+
+        def clash(l1, l2):
+            if l1[0] != l2[0]:
+                return False
+            (_, c1, r1), (_, c2, r2) = l1, l2
+            if r1 == "ne" and r2 == "ne":
+                return False
+            if r1 == "ne":
+                return r2 == "eq" and c1 == c2
+            if r2 == "ne":
+                return r1 == "eq" and c1 == c2
+            signed = {"slt", "sle", "sgt", "sge"}
+            unsigned = {"ult", "ule", "ugt", "uge"}
+            if (r1 in signed and r2 in unsigned) or (r1 in unsigned and r2 in signed):
+                return False
+            i1, i2 = interval(r1, c1), interval(r2, c2)
+            if i1 is None or i2 is None:
+                return False
+            return max(i1[0], i2[0]) > min(i1[1], i2[1])
+
+        def parts(t, acc):
+            """collect phis / call ids / has-load of a term"""
+            if not isinstance(t, tuple) or not t:
+                return
+            if isinstance(t[0], tuple):
+                for x in t:
+                    parts(x, acc)
+                return
+            if t[0] == "phi":
+                acc["phi"].add(t[1])
+            elif t[0] in ("call", "icall"):
+                acc["call"].add(t[3])
+                parts(t[2], acc)
+                return
+            elif t[0] == "load":
+                acc["load"] = True
+            for x in t[1:]:
+                if isinstance(x, tuple):
+                    parts(x, acc)
 
         def contradicts(path, atom, pol):
             if atom is None:
                 return False
-            if not immutable(atom):
-                # memory-dependent test: contradiction only with a test of the same term that no store/call separates
-                l2 = lit(atom, pol)
-                if l2 is None or len(path) < 2:
-                    return False
-                k = len(path) - 1
-                # the new atom is evaluated at the end of path[k]; walk back while no writer block intervenes
-                while k >= 1:
-                    blk_eval = path[k][0]
-                    if writer[blk_eval]:
-                        break
-                    (_, a, p) = path[k]
-                    if a is not None:
-                        l1 = lit(a, p)
-                        if l1 is not None and l1[0] == l2[0] and l1[1] == l2[1] and l1[2] != l2[2]:
-                            return True
-                    k -= 1
+            l2 = lit(atom, pol)
+            if l2 is None or len(path) < 2:
                 return False
-            for (_, a, p) in path:
-                if a is None:
-                    continue
-                if a == atom and p != pol:
-                    return True
-                if a[0] == "cmp" and atom[0] == "cmp" and a[2] == atom[2] and a[3][0] == "const" and atom[3][0] == "const" \
-                        and a[3] != atom[3] and immutable(a):
-                    e1 = (a[1] == "eq" and p) or (a[1] == "ne" and not p)
-                    e2 = (atom[1] == "eq" and pol) or (atom[1] == "ne" and not pol)
-                    if e1 and e2:
+            acc = {"phi": set(), "call": set(), "load": False}
+            parts(l2[0], acc)
+            phi_blocks = {f.insts[x].block for x in acc["phi"]}
+            call_blocks = {f.insts[x].block for x in acc["call"] if x in f.insts}
+            needs_quiet = acc["load"]
+            k = len(path) - 1
+            # the new atom is evaluated at the end of path[-1]; atom path[k] was evaluated before path[k][0] ran
+            while k >= 1:
+                blk = path[k][0]
+                if blk in phi_blocks and k != len(path) - 1:
+                    break
+                if blk in phi_blocks and k == len(path) - 1:
+                    # phi (re)assigned on entry to the current block: earlier atoms talk about the previous value
+                    break
+                if blk in call_blocks:
+                    # the call executed in this block: atoms before it concern an earlier execution (only relevant in loops)
+                    if any(path[j][0] == blk for j in range(1, k)):
+                        break
+                if needs_quiet and writer[blk]:
+                    break
+                (_, a, p) = path[k]
+                if a is not None:
+                    l1 = lit(a, p)
+                    if l1 is not None and clash(l1, l2):
                         return True
+                k -= 1
             return False
 
         def rec(b, pred, path, env, becount):
